@@ -1,2 +1,187 @@
 #include "hcommon.h"
-int hist_op(int argc, char** w) { (void)argc; (void)w; return 0; }
+/* History operations: a client with 16 slots, each holding one reference it owns.  After every operation:
+   <result> | s<i>=<refcount>[:<size>/<capacity>] ... | live=<allocator blocks> reqs=<allocator requests>          */
+
+#define NSLOT 16
+static cbor_item_t* slot[NSLOT];
+static long live_base = 0, req_off = 0;
+
+void hist_print_item(const cbor_item_t* it, char** out);   /* tree_ops.c */
+
+static void summary(void) {
+  printf(" |");
+  for (int i = 0; i < NSLOT; i++) {
+    cbor_item_t* it = slot[i];
+    if (!it) continue;
+    printf(" s%d=%zu", i, cbor_refcount(it));
+    if (cbor_isa_array(it)) printf(":%zu/%zu", cbor_array_size(it), cbor_array_allocated(it));
+    else if (cbor_isa_map(it)) printf(":%zu/%zu", cbor_map_size(it), cbor_map_allocated(it));
+    else if ((cbor_isa_bytestring(it) && cbor_bytestring_is_indefinite(it)) || (cbor_isa_string(it) && cbor_string_is_indefinite(it))) {
+      struct cbor_indefinite_string_data* d = (struct cbor_indefinite_string_data*)it->data;
+      printf(":%zu/%zu", d->chunk_count, d->chunk_capacity);
+    }
+  }
+  printf(" | live=%ld reqs=%ld\n", h_alloc_live() - live_base, req_off + h_alloc_requests());
+}
+
+/* ---- address sets, for "the new tree shares nothing with anything that existed before" ---- */
+struct aset { const void** p; size_t n, cap; };
+static void aset_add(struct aset* s, const void* a) {
+  if (!a) return;
+  if (s->n == s->cap) { s->cap = s->cap ? 2 * s->cap : 64; s->p = realloc(s->p, s->cap * sizeof(void*)); }
+  s->p[s->n++] = a;
+}
+static int aset_has(const struct aset* s, const void* a) { for (size_t i = 0; i < s->n; i++) if (s->p[i] == a) return 1; return 0; }
+static void collect(const cbor_item_t* it, struct aset* s, int* all_rc1, int depth) {
+  if (!it || depth > 4000) return;
+  aset_add(s, it);
+  if (all_rc1 && cbor_refcount(it) != 1) *all_rc1 = 0;
+  switch (cbor_typeof(it)) {
+    case CBOR_TYPE_BYTESTRING: case CBOR_TYPE_STRING: {
+      int definite = cbor_typeof(it) == CBOR_TYPE_BYTESTRING ? cbor_bytestring_is_definite(it) : cbor_string_is_definite(it);
+      if (definite) aset_add(s, it->data);
+      else {
+        struct cbor_indefinite_string_data* d = (struct cbor_indefinite_string_data*)it->data;
+        aset_add(s, d); aset_add(s, d->chunks);
+        for (size_t i = 0; i < d->chunk_count; i++) collect(d->chunks[i], s, all_rc1, depth + 1);
+      }
+      break;
+    }
+    case CBOR_TYPE_ARRAY:
+      aset_add(s, it->data);
+      for (size_t i = 0; i < cbor_array_size(it); i++) collect(cbor_array_handle(it)[i], s, all_rc1, depth + 1);
+      break;
+    case CBOR_TYPE_MAP:
+      aset_add(s, it->data);
+      for (size_t i = 0; i < cbor_map_size(it); i++) { collect(cbor_map_handle(it)[i].key, s, all_rc1, depth + 1); collect(cbor_map_handle(it)[i].value, s, all_rc1, depth + 1); }
+      break;
+    case CBOR_TYPE_TAG: collect(it->metadata.tag_metadata.tagged_item, s, all_rc1, depth + 1); break;
+    default: break;
+  }
+}
+/* 1 iff every node of the tree in slot s has refcount 1 and no node / buffer of it is reachable from another slot */
+static int fresh(int s) {
+  struct aset mine = {0}, others = {0}; int rc1 = 1;
+  collect(slot[s], &mine, &rc1, 0);
+  for (int i = 0; i < NSLOT; i++) if (i != s && slot[i] && slot[i] != slot[s]) collect(slot[i], &others, NULL, 0);
+  int ok = rc1;
+  for (size_t i = 0; i < mine.n && ok; i++) if (aset_has(&others, mine.p[i])) ok = 0;
+  /* and no node appears twice inside the new tree (shared sub-items must come out unshared) */
+  for (size_t i = 0; i < mine.n && ok; i++) for (size_t j = i + 1; j < mine.n; j++) if (mine.p[i] == mine.p[j]) { ok = 0; break; }
+  free(mine.p); free(others.p);
+  return ok;
+}
+
+static int S(const char* w) { int v = atoi(w); return (v >= 0 && v < NSLOT) ? v : 0; }
+static void put_new(int s, cbor_item_t* it, int with_fresh) {
+  if (slot[s]) { printf("slot-occupied"); summary(); if (it) cbor_decref(&it); return; }
+  slot[s] = it;
+  printf(it ? "item" : "NULL");
+  if (it && with_fresh) printf(" fresh=%d", fresh(s));
+  summary();
+}
+
+static const char* err_name2(cbor_error_code c) {
+  switch (c) {
+    case CBOR_ERR_NONE: return "NONE"; case CBOR_ERR_NOTENOUGHDATA: return "NOTENOUGHDATA"; case CBOR_ERR_NODATA: return "NODATA";
+    case CBOR_ERR_MALFORMATED: return "MALFORMATED"; case CBOR_ERR_MEMERROR: return "MEMERROR"; case CBOR_ERR_SYNTAXERROR: return "SYNTAXERROR";
+  }
+  return "?";
+}
+
+int hist_op(int argc, char** w) {
+  if (argc == 1 && !strcmp(w[0], "HRESET")) {
+    h_alloc_schedule(0, 0, NULL);
+    for (int i = 0; i < NSLOT; i++) slot[i] = NULL;        /* whatever a previous history left is forgotten, not released */
+    live_base = h_alloc_live(); h_alloc_reset_counters(); req_off = 0;
+    printf("reset\n"); return 1;
+  }
+  if (argc == 3 && !strcmp(w[0], "HFAULT")) {
+    req_off += h_alloc_requests(); h_alloc_reset_counters();
+    h_alloc_schedule(atoi(w[1]), atol(w[2]), NULL);
+    printf("fault-schedule\n"); return 1;
+  }
+  if (argc < 2 || strcmp(w[0], "H")) return 0;
+  const char* op = w[1]; char** a = w + 2; int n = argc - 2;
+  if (!strcmp(op, "dump") && n == 1) {
+    if (!slot[S(a[0])]) { printf("EMPTY\n"); return 1; }
+    char* t = NULL; hist_print_item(slot[S(a[0])], &t); printf("%s\n", t); free(t); return 1;
+  }
+  if (!strcmp(op, "ser") && n == 1) {
+    cbor_item_t* it = slot[S(a[0])];
+    if (!it) { printf("EMPTY\n"); return 1; }
+    size_t sz = cbor_serialized_size(it);
+    unsigned char* b = malloc(sz ? sz : 1);
+    size_t wr = cbor_serialize(it, b, sz);
+    printf("%zu ", sz); print_hex(b, wr); printf("\n"); free(b); return 1;
+  }
+  if (!strcmp(op, "int") && n == 4) {
+    int neg = atoi(a[1]), wd = atoi(a[2]); uint64_t v = strtoull(a[3], 0, 10); cbor_item_t* it = NULL;
+    switch (wd) {
+      case 8: it = neg ? cbor_build_negint8((uint8_t)v) : cbor_build_uint8((uint8_t)v); break;
+      case 16: it = neg ? cbor_build_negint16((uint16_t)v) : cbor_build_uint16((uint16_t)v); break;
+      case 32: it = neg ? cbor_build_negint32((uint32_t)v) : cbor_build_uint32((uint32_t)v); break;
+      default: it = neg ? cbor_build_negint64(v) : cbor_build_uint64(v); break;
+    }
+    put_new(S(a[0]), it, 0); return 1;
+  }
+  if (!strcmp(op, "str") && n == 3) {
+    unsigned char* d = malloc(strlen(a[2]) / 2 + 1); size_t len = a[2][0] == '-' ? 0 : hex_decode(a[2], d, strlen(a[2]) / 2 + 1);
+    cbor_item_t* it = atoi(a[1]) ? cbor_build_stringn((const char*)d, len) : cbor_build_bytestring(d, len);
+    free(d); put_new(S(a[0]), it, 0); return 1;
+  }
+  if (!strcmp(op, "stri") && n == 2) { put_new(S(a[0]), atoi(a[1]) ? cbor_new_indefinite_string() : cbor_new_indefinite_bytestring(), 0); return 1; }
+  if (!strcmp(op, "arr") && n == 3) { put_new(S(a[0]), atoi(a[1]) ? cbor_new_definite_array(strtoull(a[2], 0, 10)) : cbor_new_indefinite_array(), 0); return 1; }
+  if (!strcmp(op, "map") && n == 3) { put_new(S(a[0]), atoi(a[1]) ? cbor_new_definite_map(strtoull(a[2], 0, 10)) : cbor_new_indefinite_map(), 0); return 1; }
+  if (!strcmp(op, "tag") && n == 2) { put_new(S(a[0]), cbor_new_tag(strtoull(a[1], 0, 10)), 0); return 1; }
+  if (!strcmp(op, "btag") && n == 3) { put_new(S(a[0]), cbor_build_tag(strtoull(a[1], 0, 10), slot[S(a[2])]), 0); return 1; }
+  if (!strcmp(op, "ctrl") && n == 2) { put_new(S(a[0]), cbor_build_ctrl((uint8_t)atoi(a[1])), 0); return 1; }
+  if ((!strcmp(op, "f2") || !strcmp(op, "f4")) && n == 2) {
+    uint32_t b = (uint32_t)strtoul(a[1], 0, 10); float f; memcpy(&f, &b, 4);
+    put_new(S(a[0]), op[1] == '2' ? cbor_build_float2(f) : cbor_build_float4(f), 0); return 1;
+  }
+  if (!strcmp(op, "f8") && n == 2) { uint64_t b = strtoull(a[1], 0, 10); double f; memcpy(&f, &b, 8); put_new(S(a[0]), cbor_build_float8(f), 0); return 1; }
+  if (!strcmp(op, "push") && n == 2) { printf(cbor_array_push(slot[S(a[0])], slot[S(a[1])]) ? "true" : "false"); summary(); return 1; }
+  if (!strcmp(op, "pushm") && n == 2) {
+    cbor_item_t* x = slot[S(a[1])];
+    bool ok = cbor_array_push(slot[S(a[0])], cbor_move(x));
+    if (ok) slot[S(a[1])] = NULL; else cbor_incref(x);
+    printf(ok ? "true" : "false"); summary(); return 1;
+  }
+  if (!strcmp(op, "set") && n == 3) { printf(cbor_array_set(slot[S(a[0])], strtoull(a[1], 0, 10), slot[S(a[2])]) ? "true" : "false"); summary(); return 1; }
+  if (!strcmp(op, "replace") && n == 3) { printf(cbor_array_replace(slot[S(a[0])], strtoull(a[1], 0, 10), slot[S(a[2])]) ? "true" : "false"); summary(); return 1; }
+  if (!strcmp(op, "get") && n == 3) { put_new(S(a[0]), cbor_array_get(slot[S(a[1])], strtoull(a[2], 0, 10)), 0); return 1; }
+  if (!strcmp(op, "madd") && n == 3) {
+    printf(cbor_map_add(slot[S(a[0])], (struct cbor_pair){.key = slot[S(a[1])], .value = slot[S(a[2])]}) ? "true" : "false"); summary(); return 1;
+  }
+  if (!strcmp(op, "chunk") && n == 2) {
+    cbor_item_t* s = slot[S(a[0])];
+    bool ok = cbor_isa_bytestring(s) ? cbor_bytestring_add_chunk(s, slot[S(a[1])]) : cbor_string_add_chunk(s, slot[S(a[1])]);
+    printf(ok ? "true" : "false"); summary(); return 1;
+  }
+  if (!strcmp(op, "tagset") && n == 3) {
+    /* documented: a previously tagged item keeps the reference the tag held; the client takes it over (slot a[2]) */
+    cbor_item_t* t = slot[S(a[0])];
+    cbor_item_t* old = t->metadata.tag_metadata.tagged_item ? cbor_move(cbor_tag_item(t)) : NULL;
+    cbor_tag_set_item(t, slot[S(a[1])]);
+    if (old) { if (slot[S(a[2])]) printf("slot-occupied "); else slot[S(a[2])] = old; }
+    printf("done"); summary(); return 1;
+  }
+  if (!strcmp(op, "tagget") && n == 2) { put_new(S(a[0]), cbor_tag_item(slot[S(a[1])]), 0); return 1; }
+  if (!strcmp(op, "copy") && n == 2) { put_new(S(a[0]), cbor_copy(slot[S(a[1])]), 1); return 1; }
+  if (!strcmp(op, "incref") && n == 2) { put_new(S(a[0]), cbor_incref(slot[S(a[1])]), 0); return 1; }
+  if (!strcmp(op, "decref") && n == 1) { cbor_decref(&slot[S(a[0])]); slot[S(a[0])] = NULL; printf("done"); summary(); return 1; }
+  if (!strcmp(op, "load") && n == 2) {
+    struct xbuf in = hex_to_exact(a[1]);
+    struct cbor_load_result res; memset(&res, 0x5a, sizeof res);
+    cbor_item_t* it = cbor_load(in.p, in.n, &res);
+    free_exact(in);
+    int s = S(a[0]);
+    if (slot[s]) { printf("slot-occupied"); summary(); return 1; }
+    slot[s] = it;
+    if (it) printf("item code=%s read=%zu fresh=%d", err_name2(res.error.code), res.read, fresh(s));
+    else printf("NULL code=%s pos=%zu", err_name2(res.error.code), res.error.position);
+    summary(); return 1;
+  }
+  return 0;
+}
